@@ -504,7 +504,7 @@ impl<S: Sample> Properties<'_, '_, '_, S> {
 
         let c = prev_channel.get(x, y).to_i32();
         if prop_idx == 0 {
-            c.abs()
+            c.wrapping_abs()
         } else if prop_idx == 1 {
             c
         } else {
